@@ -630,5 +630,7 @@ PROPS["C15"]["proofs"] = PROPS["C15"]["proofs"] + ["Bmc.Proofs.C15Float"]
 PROPS["C15"]["claim"] += (" FLOATING-POINT CLAUSE UNDER THE STANDARD MODEL (Proofs/C15Float.lean, Lemmas/FloatModel.lean; core Lean, rationals): convertReading_source — the body of ConvertReading as it "
                           "stands in the source on this run is the three statements modelled (regenerated fact); convert_error / convert_within_6u — for EVERY rounding function with relative error <= u "
                           "(what IEEE-754 guarantees for correctly rounded operations; binary64: u = 2^-53) the five-rounding computation is within ((1+u)^5 - 1), hence 6u, of (|M x| + |B| 10^K1) 10^K2 "
-                          "from the specification's value, for ALL integers: the tolerance the correspondence check applies to the real float64 on every run is this theorem's bound. Still trusted: that Go's "
-                          "float64 operations and math.Pow10 are correctly rounded, and the library functions behind the linearisations.")
+                          "from the specification's value, for ALL integers: the tolerance the correspondence check applies to the real float64 on every run is this theorem's bound. BINARY64 (Lemmas/Binary64.lean): "
+                          "rnd64, IEEE-754 round-to-nearest-even over the rationals, is PROVED an instance of that model with u = 2^-53 (rnd64_err), so convert_binary64_within_6u holds of the concrete value; the driver "
+                          "computes that value exactly and the correspondence run compares it BIT FOR BIT (as the rational num/den) with the float64 the real code returned for every reading (the lin= field). Still trusted: "
+                          "that Go's float64 operations and math.Pow10 are IEEE-754 correctly rounded (now confirmed bit for bit on every input of the run), and the library functions behind the linearisations.")
